@@ -1,6 +1,6 @@
 import readline
 from fractions import Fraction as frac
-from decimal import Decimal
+from decimal import Decimal, localcontext, MAX_EMAX, MIN_EMIN
 import sys
 import os
 import os.path
@@ -468,7 +468,10 @@ def precisionify_frac(f):
     except OverflowError:
         # Too large for a float: let Decimal do the division and formatting.
         fstring = "{:." + str(ka.config.get(ConfigProperties.PRECISION)) + "g}"
-        return fstring.format(Decimal(f.numerator) / Decimal(f.denominator))
+        with localcontext() as ctx:
+            # The default context stops at 10**999999.
+            ctx.Emax, ctx.Emin = MAX_EMAX, MIN_EMIN
+            return fstring.format(Decimal(f.numerator) / Decimal(f.denominator))
 
 def prettify_frac(f, brackets=False):
     sign = 1 if f >= 0 else -1
